@@ -33,11 +33,13 @@ pub enum COp {
     /// plaintext values + scale
     AddPlain(usize, Vec<C64>), SubPlain(usize, Vec<C64>), MultiplyPlain(usize, Vec<C64>, f64),
     Relinearize(usize), RescaleNext(usize), ModSwitchNext(usize),
+    /// rescale_to(parms_id of the level `steps` (>= 1) below the operand's)
+    RescaleTo(usize, usize),
 }
 impl COp {
     pub fn name(&self) -> &'static str { match self { COp::Negate(_) => "negate", COp::Add(..) => "add", COp::Sub(..) => "sub", COp::AddMany(_) => "add_many", COp::Multiply(..) => "multiply", COp::Square(_) => "square",
-        COp::AddPlain(..) => "add_plain", COp::SubPlain(..) => "sub_plain", COp::MultiplyPlain(..) => "multiply_plain", COp::Relinearize(_) => "relinearize", COp::RescaleNext(_) => "rescale_to_next", COp::ModSwitchNext(_) => "mod_switch_to_next" } }
-    pub fn operands(&self) -> Vec<usize> { match self { COp::Negate(a) | COp::Square(a) | COp::AddPlain(a, _) | COp::SubPlain(a, _) | COp::MultiplyPlain(a, _, _) | COp::Relinearize(a) | COp::RescaleNext(a) | COp::ModSwitchNext(a) => vec![*a],
+        COp::AddPlain(..) => "add_plain", COp::SubPlain(..) => "sub_plain", COp::MultiplyPlain(..) => "multiply_plain", COp::Relinearize(_) => "relinearize", COp::RescaleNext(_) => "rescale_to_next", COp::ModSwitchNext(_) => "mod_switch_to_next", COp::RescaleTo(..) => "rescale_to" } }
+    pub fn operands(&self) -> Vec<usize> { match self { COp::Negate(a) | COp::Square(a) | COp::AddPlain(a, _) | COp::SubPlain(a, _) | COp::MultiplyPlain(a, _, _) | COp::Relinearize(a) | COp::RescaleNext(a) | COp::ModSwitchNext(a) | COp::RescaleTo(a, _) => vec![*a],
         COp::Add(a, b) | COp::Sub(a, b) | COp::Multiply(a, b) => vec![*a, *b], COp::AddMany(v) => v.clone() } }
     fn brief(&self) -> String { match self { COp::AddPlain(a, _) => format!("add_plain({})", a), COp::SubPlain(a, _) => format!("sub_plain({})", a), COp::MultiplyPlain(a, _, s) => format!("multiply_plain({}, scale 2^{:.1})", a, s.log2()), o => format!("{:?}", o) } }
 }
@@ -104,6 +106,14 @@ impl<'a> CkksMachine<'a> {
             COp::Relinearize(a) => if self.rlk.is_none() || el(a).ct.size() != 3 { Err("n/a") } else { Ok(true) },
             COp::RescaleNext(a) => Ok(el(a).level + 1 < self.kit.levels.len() && self.scale_fits(el(a).ct.scale() / *self.kit.level_qs(el(a).level).last().unwrap() as f64, el(a).level + 1)),
             COp::ModSwitchNext(a) => Ok(el(a).level + 1 < self.kit.levels.len() && self.scale_fits(el(a).ct.scale(), el(a).level + 1)),
+            COp::RescaleTo(a, steps) => {
+                if *steps == 0 { return Err("n/a"); }
+                if el(a).level + *steps >= self.kit.levels.len() { return Err("n/a"); }
+                // every one-level step of the walk must leave a scale that fits its level
+                let mut sc = el(a).ct.scale();
+                for l in el(a).level..el(a).level + *steps { sc /= *self.kit.level_qs(l).last().unwrap() as f64; if !self.scale_fits(sc, l + 1) { return Ok(false); } }
+                Ok(true)
+            }
         }
     }
 
@@ -132,6 +142,7 @@ impl<'a> CkksMachine<'a> {
                 COp::Relinearize(a) => { let rk = self.rlk.as_ref().unwrap(); pl!(a, rk, relinearize_inplace, relinearize, relinearize_new) }
                 COp::RescaleNext(a) => un!(a, rescale_to_next_inplace, rescale_to_next, rescale_to_next_new),
                 COp::ModSwitchNext(a) => un!(a, mod_switch_to_next_inplace, mod_switch_to_next, mod_switch_to_next_new),
+                COp::RescaleTo(a, steps) => { let lv = (self.pool[*a].level + *steps).min(kit.levels.len() - 1); let pid = *kit.levels[lv].parms_id(); pl!(a, &pid, rescale_to_inplace, rescale_to, rescale_to_new) }
             }
         })
     }
@@ -157,6 +168,9 @@ impl<'a> CkksMachine<'a> {
             COp::Relinearize(_) => (a.v.clone(), a.scale, a.e + nf * self.ks_noise(a.level) / a.ct.scale(), a.m, a.c + self.ks_noise(a.level), a.level),
             COp::RescaleNext(_) => { let ql = *self.kit.level_qs(a.level).last().unwrap() as f64; let s2 = a.scale / ql; (a.v.clone(), s2, a.e + nf * (geo(n, a.ct.size()) / 2.0 + 1.0) / s2, a.m, a.c / ql + geo(n, a.ct.size()), a.level + 1) }
             COp::ModSwitchNext(_) => (a.v.clone(), a.scale, a.e, a.m, a.c, a.level + 1),
+            COp::RescaleTo(_, steps) => { let (mut s2, mut e, mut c) = (a.scale, a.e, a.c);
+                for l in a.level..a.level + *steps { let ql = *self.kit.level_qs(l).last().unwrap() as f64; s2 /= ql; e += nf * (geo(n, a.ct.size()) / 2.0 + 1.0) / s2; c = c / ql + geo(n, a.ct.size()); }
+                (a.v.clone(), s2, e, a.m, c, a.level + *steps) }
         };
         CElem { ct, v, scale, e: e * (1.0 + 2f64.powi(-30)) + m * 2f64.powi(-48), m, c, level, origin: op.name().into() }
     }
@@ -188,7 +202,7 @@ impl<'a> CkksMachine<'a> {
                 5 | 6 => COp::Multiply(a, bl), 7 => COp::Square(a),
                 8 => COp::AddPlain(a, self.random_values(rng)), 9 => COp::SubPlain(a, self.random_values(rng)),
                 10 => { let room = (self.bits(self.pool[a].level) as f64 - self.pool[a].ct.scale().log2() - 2.0).max(1.0); let s = 2f64.powf((rng.f64() * room.min(40.0)).floor().max(1.0)); COp::MultiplyPlain(a, self.random_values(rng), s) }
-                11 => COp::Relinearize(a), 12 | 13 => COp::RescaleNext(a), _ => COp::ModSwitchNext(a),
+                11 => COp::Relinearize(a), 12 => COp::RescaleNext(a), 13 => if rng.chance(1, 2) { COp::RescaleNext(a) } else { COp::RescaleTo(a, 1 + rng.usize_below(3)) }, _ => COp::ModSwitchNext(a),
             };
             if self.expect(&op).is_ok() { return Some(op); }
         }
